@@ -304,7 +304,7 @@ func c12RegLists() {
 	// Blocking pops go through a caller-supplied node (no breaker). They are only run
 	// when they cannot block: the key holds a non-empty list or a value of another
 	// type (immediate WRONGTYPE); an absent/empty list would sleep in real time.
-	blockSkip := func(e *c12Env, s c12Step) bool { return !e.tw.mB.Exists(s.K[0]) }
+	blockSkip := func(e *c12Env, s c12Step) bool { return !e.tw.mB.Exists(s.K[0]) && !(s.X && s.D != 0) }
 	blockGen := func(g *c12G) c12Step { return c12Step{K: []string{g.key("list")}, I: []int64{g.small(1, 3)}} }
 	c12Reg("BLPop", &c12Entry{typ: "list", mtype: "list", skip: blockSkip, gen: blockGen,
 		wrap: func(e *c12Env, ctx context.Context, s c12Step) (any, error) {
